@@ -18,6 +18,7 @@
 // bounds: - (no aggregation config) | <int>,<int>… (HistogramAggregationConfig::boundaries_); a histogram stream prints a=hist[:b1:b2…]@<bucket index>
 // matcher: name | ver | schema | any | prefix
 #include "common.h"
+#include "metrics_factories.h"
 #include "opentelemetry/sdk/logs/logger_context_factory.h"
 #include "opentelemetry/sdk/logs/logger_provider_factory.h"
 #include "opentelemetry/sdk/trace/tracer_context_factory.h"
@@ -151,27 +152,9 @@ static long value_of(const sm::ValueType &v)
   return static_cast<long>(nostd::get<double>(v));
 }
 
-// the MeterProvider is built through one of its constructors / factory overloads / an explicit MeterContext, chosen by the
-// case: views, resource and scope configurator must reach the meters through every one of them
-static std::shared_ptr<sm::MeterProvider> make_meter_provider(size_t variant, std::unique_ptr<sm::ViewRegistry> views,
-                                                              const res::Resource &resource,
-                                                              std::unique_ptr<scope_ns::ScopeConfigurator<sm::MeterConfig>> conf)
-{
-  switch (variant % 4)
-  {
-    case 1:
-      return std::shared_ptr<sm::MeterProvider>(sm::MeterProviderFactory::Create(std::move(views), resource, std::move(conf)));
-    case 2:
-      return std::shared_ptr<sm::MeterProvider>(
-          sm::MeterProviderFactory::Create(sm::MeterContextFactory::Create(std::move(views), resource, std::move(conf))));
-    case 3:
-      return std::make_shared<sm::MeterProvider>(
-          std::unique_ptr<sm::MeterContext>(new sm::MeterContext(std::move(views), resource, std::move(conf))));
-    default:
-      return std::make_shared<sm::MeterProvider>(std::move(views), resource, std::move(conf));
-  }
-}
-
+// the MeterProvider, its context, registry, views and selectors are built through the constructors or the *Factory::Create
+// overloads, chosen by a hash of the case text (metrics_factories.h): views, resource and scope configurator must reach the
+// meters through every one of them
 static std::string handle_mv(const std::vector<std::string> &t)
 {
   auto ops = vh::split_ops(t, 1);
@@ -184,9 +167,9 @@ static std::string handle_mv(const std::vector<std::string> &t)
   // which entry points build the configuration depends on the case (number of operations): the provider constructor /
   // factory, and whether the views go into a ViewRegistry handed to the provider or are added with MeterProvider::AddView
   // afterwards (before any instrument exists), built directly or through the *Factory::Create functions
-  const size_t how      = ops.size();
-  const bool late_views = (how / 4) % 2 == 1;
-  std::unique_ptr<sm::ViewRegistry> views(late_views ? sm::ViewRegistryFactory::Create().release() : new sm::ViewRegistry());
+  const uint64_t how    = vhm::case_hash(t);
+  const bool late_views = vhm::mix(how, 2) % 2 == 1;
+  std::unique_ptr<sm::ViewRegistry> views = vhm::make_registry(how);
   struct PendingView
   {
     std::unique_ptr<sm::InstrumentSelector> isel;
@@ -248,21 +231,14 @@ static std::string handle_mv(const std::vector<std::string> &t)
       }
       try
       {
-        if (late_views)
-        {
-          PendingView pv;
-          pv.isel = sm::InstrumentSelectorFactory::Create(it, pat, unit);
-          pv.msel = sm::MeterSelectorFactory::Create(smn, smv, sms);
-          pv.view = sm::ViewFactory::Create(vname, vdesc, vunit, agg, config, std::move(proc));
-          pending.push_back(std::move(pv));
-        }
-        else
-        {
-          std::unique_ptr<sm::InstrumentSelector> isel(new sm::InstrumentSelector(it, pat, unit));
-          std::unique_ptr<sm::MeterSelector> msel(new sm::MeterSelector(smn, smv, sms));
-          std::unique_ptr<sm::View> view(new sm::View(vname, vdesc, vunit, agg, config, std::move(proc)));
-          views->AddView(std::move(isel), std::move(msel), std::move(view));
-        }
+        // an attributes processor that keeps everything may also be left to the View's default
+        if (op[11] == "*" && vhm::mix(how, 400 + k) % 2) proc.reset();
+        PendingView pv;
+        pv.isel = vhm::make_isel(vhm::mix(how, 100 + k), it, pat, unit);
+        pv.msel = vhm::make_msel(vhm::mix(how, 200 + k), smn, smv, sms);
+        pv.view = vhm::make_view(vhm::mix(how, 300 + k), vname, vdesc, vunit, agg, config, std::move(proc));
+        if (late_views) pending.push_back(std::move(pv));
+        else views->AddView(std::move(pv.isel), std::move(pv.msel), std::move(pv.view));
       }
       catch (const std::exception &)
       {
@@ -294,7 +270,7 @@ static std::string handle_mv(const std::vector<std::string> &t)
   auto resource = res::Resource::Create({});
   std::unique_ptr<scope_ns::ScopeConfigurator<sm::MeterConfig>> conf(new scope_ns::ScopeConfigurator<sm::MeterConfig>(
       scope_ns::ScopeConfigurator<sm::MeterConfig>::Builder(enabled ? sm::MeterConfig::Enabled() : sm::MeterConfig::Disabled()).Build()));
-  auto provider = make_meter_provider(how, std::move(views), resource, std::move(conf));
+  auto provider = vhm::make_provider(how, std::move(views), &resource, std::move(conf)).provider;
   for (auto &pv : pending) provider->AddView(std::move(pv.isel), std::move(pv.msel), std::move(pv.view));
   auto reader   = std::make_shared<ExplicitReader>();
   provider->AddMetricReader(reader);
@@ -669,8 +645,8 @@ static std::string handle_sc(const std::vector<std::string> &t)
   }
   // meters
   {
-    auto provider = make_meter_provider(rules.size() + reqs.size(), std::unique_ptr<sm::ViewRegistry>(new sm::ViewRegistry()), resource,
-                                        build_conf<sm::MeterConfig>(rules, def));
+    const uint64_t how = vhm::case_hash(t);
+    auto provider      = vhm::make_provider(how, vhm::make_registry(how), &resource, build_conf<sm::MeterConfig>(rules, def)).provider;
     auto reader   = std::make_shared<ExplicitReader>();
     provider->AddMetricReader(reader);
     std::vector<nostd::shared_ptr<mapi::Meter>> keep;
